@@ -280,8 +280,32 @@ def pressure_without_total_only_from_legacy_format(ctx):
     ctx.floor("pressure_record_constructions", 2, "ResourcePressure constructions in the PSI readers")
 
 
+def deferred_kill_state_owns_its_data(ctx):
+    """What a kill plugin keeps ACROSS TICKS while a prekill hook is pending (the Serialized* records: target, kill root, peers, the stack of
+    next-best candidates) owns its data: no member of those records is a reference, pointer, reference_wrapper or view.  The contexts the
+    data was taken from live in OomdContext's per-tick cache; refresh() destroys the context of a cgroup that has gone away, and a
+    borrowed CgroupPath is then read after free when the kill is resumed."""
+    P = ctx.prog
+    n = 0
+    for q, c in sorted(P.classes.items()):
+        if not q.startswith("Oomd::BaseKillPlugin::Serialized"):
+            continue
+        n += 1
+        for fld in c.get("fields", []):
+            t = (fld.get("type") or "")
+            inner = re.sub(r"^(const\s+)?std::(shared_ptr|unique_ptr|optional|vector|deque|list)<(.*)>$", r"\3", t.strip())
+            borrowed = any(x in t for x in ("reference_wrapper", "string_view", "span<")) or inner.rstrip().endswith(("&", "*")) or t.rstrip().endswith(("&", "*"))
+            ctx.check(not borrowed, "deferred-kill-state-owns-its-data:%s:%s" % (q.split("::")[-1], fld["name"]), "E-TYPE (declared member type)", "oomd/plugins/BaseKillPlugin.h",
+                      "%s::%s is owned (%s)" % (q.split("::")[-1], fld["name"], t),
+                      "%s::%s is declared %s: the record outlives the tick it was made in, but what it refers to lives in OomdContext's per-tick cache - when that cgroup "
+                      "is removed before the deferred kill resumes, the resumed kill reads freed memory (undefined behaviour in the main loop)" % (q, fld["name"], t))
+    ctx.counters["serialized_record_types"] = n
+    ctx.floor("serialized_record_types", 2, "Serialized* record types of BaseKillPlugin")
+
+
 def run(ctx):
     find_result_checked_before_use(ctx)
+    deferred_kill_state_owns_its_data(ctx)
     pressure_without_total_only_from_legacy_format(ctx)
     from .C09 import selection_index_is_within_the_selected_range
     selection_index_is_within_the_selected_range(ctx)
